@@ -1,2 +1,7 @@
 #!/bin/sh
-exit 0
+# build the clang-14 frontend plugin (offline; ~20 s)
+set -e
+cd "$(dirname "$0")"
+mkdir -p build
+clang++ $(llvm-config-14 --cxxflags) -fPIC -shared -fno-rtti -O1 plugin/gm2facts.cc -o build/gm2facts.so
+echo "gm2facts plugin built"
